@@ -204,6 +204,11 @@ def _():
     return (list(SEQS),), {"n_cpu": 3, "compression": 2}
 
 
+@spec("kdtree_plain_same_input_as_hamming", NN + "kdtree", sorted_triplets)
+def _():
+    return (list(SEQS),), {}
+
+
 @spec("kdtree_hamming", NN + "kdtree", sorted_triplets)
 def _():
     return (list(SEQS),), {"custom_distance": "hamming"}
@@ -676,6 +681,31 @@ def _():
 def _():
     return (_std_df(),), {"suppress_warnings": True, "tcr_precision": "allele", "tcr_enforce_functional": False, "mhc_precision": "protein",
                           "strict_cdr3_standardization": True}
+
+
+@spec("standardize_only_nonfunctional", IO + "standardize_dataframe")
+def _():
+    return (_std_df(),), {"suppress_warnings": True, "tcr_enforce_functional": False}
+
+
+@spec("standardize_only_allele", IO + "standardize_dataframe")
+def _():
+    return (_std_df(),), {"suppress_warnings": True, "tcr_precision": "allele"}
+
+
+@spec("standardize_only_strict", IO + "standardize_dataframe")
+def _():
+    return (_std_df(),), {"suppress_warnings": True, "strict_cdr3_standardization": True}
+
+
+@spec("standardize_only_mouse", IO + "standardize_dataframe")
+def _():
+    return (_std_df(),), {"suppress_warnings": True, "species": "MusMusculus"}
+
+
+@spec("standardize_only_mhc_protein", IO + "standardize_dataframe")
+def _():
+    return (_std_df(),), {"suppress_warnings": True, "mhc_precision": "protein"}
 
 
 @spec("standardize_mapper_false", IO + "standardize_dataframe")
